@@ -55,8 +55,9 @@ type Frame struct {
 }
 
 type funcInfo struct {
-	idx map[ssa.Value]int
-	n   int
+	idx       map[ssa.Value]int
+	n         int
+	meterTick bool // a runtimeContextManager.Require* method
 }
 
 type Intrinsic func(in *Interp, fr *Frame, args []V) V
@@ -120,6 +121,9 @@ type Interp struct {
 	concNondets map[string]uint64
 	KnownIDs    map[string]bool
 	AllocBound  int
+	WorkBound   int // >0: bound on back edges executed between two metering calls
+	work        int
+	WorkMax     int
 	AllocEventIsPanic bool
 	MapOrderReverse   bool
 	TierN       int
@@ -304,6 +308,12 @@ func (in *Interp) info(fn *ssa.Function) *funcInfo {
 		return fi
 	}
 	fi = &funcInfo{idx: map[ssa.Value]int{}}
+	if rv := fn.Signature.Recv(); rv != nil && strings.HasSuffix(rv.Type().String(), "runtime.runtimeContextManager") {
+		switch fn.Name() {
+		case "RequireCPU", "RequireMem", "RequireBytes", "RequireSize", "RequireArrSize", "LinearRequire":
+			fi.meterTick = true
+		}
+	}
 	for _, p := range fn.Params {
 		fi.idx[p] = fi.n
 		fi.n++
@@ -712,6 +722,22 @@ func (in *Interp) callSSA(fn *ssa.Function, args []V, env []V, caller *Frame) V 
 		panic(&pathEnd{Kind: "unwind", Msg: "recursion depth > bound in " + name})
 	}
 	fi := in.info(fn)
+	if fi.meterTick && in.WorkBound > 0 {
+		// a metering call with a non-zero amount ends the current stretch of
+		// unmetered work
+		zero := true
+		for _, a := range args[1:] {
+			if t, ok := a.(*Term); ok && !(t.Op == OpConst && t.Lo == 0) {
+				zero = false
+			}
+		}
+		if !zero {
+			if in.work > in.WorkMax {
+				in.WorkMax = in.work
+			}
+			in.work = 0
+		}
+	}
 	fr := &Frame{fn: fn, info: fi, regs: make([]V, fi.n), caller: caller}
 	for i, p := range fn.Params {
 		fr.regs[fi.idx[p]] = args[i]
@@ -1087,6 +1113,14 @@ func (in *Interp) exec(fr *Frame, instr ssa.Instruction) cont {
 }
 
 func (in *Interp) jumpTo(fr *Frame, to *ssa.BasicBlock) {
+	if in.WorkBound > 0 && to.Index <= fr.block.Index {
+		// back edge: one unit of work since the last metering call
+		in.work++
+		if in.work > in.WorkBound {
+			in.specAbortIf("work bound in region")
+			panic(&pathEnd{Kind: "work", Msg: fmt.Sprintf("more than %d loop iterations without a metering call, in %s @ %s", in.WorkBound, fr.fn.String(), in.stackString())})
+		}
+	}
 	fr.prev, fr.block = fr.block, to
 }
 
